@@ -134,6 +134,30 @@ def check(ctx):
                           'constructor argument of the same role')
         ctx.guard('R1.point_binding', fsite(c), rc)
 
+    # the density call is made at most once per point: weight() computes only while the stored weight is still the
+    # "not computed" value and stores what it computed (the protocol allows one density call per evaluated point;
+    # invoke, the kernel and every projector.add ask for the weight again)
+    for wf in instances(p, 'hep::multi_channel_point2::weight'):
+        ctx.analysed(wf)
+
+        def rlazy(wf=wf):
+            s, ex = summarise(p, wf)
+            w0 = fld(sym('this'), 'weight_')
+            uc = [e for e, l in flat_effects(s.effects) if e['kind'] == 'ucall']
+            if len(uc) != 1:
+                raise AnalysisBroken('expected exactly one call of the channel map in weight()')
+            when_set = T.subst(T.conj(uc[0]['pc']), {('==', w0, ZERO): T.FALSE, ('==', ZERO, w0): T.FALSE,
+                                                    ('!=', w0, ZERO): T.TRUE, ('!=', ZERO, w0): T.TRUE})
+            when_set = simplify_under(when_set, ())
+            stored = fld(s.this, 'weight_')
+            if when_set == T.FALSE and stored != w0:
+                ctx.holds('R2.density_call_once', fsite(wf), 'the map is asked for densities only while the stored weight '
+                          'is 0 (not computed yet) and the result is stored: later weight() calls return the stored value')
+            else:
+                ctx.violation('R2.density_call_once', fsite(wf), 'weight() asks the map for densities also when the weight '
+                              'has been computed already: the map is called once per use of the weight instead of once '
+                              'per point', {'call_condition_when_weight_set': T.pretty(when_set)[:200]})
+        ctx.guard('R2.density_call_once', fsite(wf), rlazy)
     # ---------------------------------------------------------------- R2 who may call weight()
     def r2():
         sites = []
@@ -197,10 +221,14 @@ def check(ctx):
             r = fld(pt, 'point_')
             rn = ex.read(s.state, r[1]) if isinstance(r, tuple) and r[0] == 'ref' else None
             ls = s.loops[inv[0][1][0]['loop']]
-            u = ls.updates.get('random_numbers')
+            u = upd_by_loc(ls, r[1]) if isinstance(r, tuple) and r[0] == 'ref' else ls.updates.get('random_numbers')
             nxt = u['next'] if u else None
+            # every element of the point is a canonical number drawn in this call: the buffer is overwritten
+            # element by element, or emptied and refilled
             ok = isinstance(nxt, tuple) and nxt[0] == 'vmap' and nxt[3] == ZERO and T.size(nxt[1]) == nxt[4] and \
                 isinstance(nxt[5], tuple) and nxt[5][0] == 'rand'
+            ok = ok or (isinstance(nxt, tuple) and nxt[0] == 'vcomp' and nxt[1] == T.vempty() and nxt[3] == ZERO and
+                        nxt[5] == T.TRUE and isinstance(nxt[6], tuple) and nxt[6][0] == 'rand')
             if ok:
                 ctx.holds('R4.unit_interval', fsite(f), 'PLAIN points consist of fresh canonical numbers only: [0,1)')
             else:
